@@ -14,7 +14,7 @@ use crate::proto::{Ctx, attrs};
 pub fn meta() -> Meta {
     Meta {
         level: "exploration",
-        rule: "exhaustive for n=3, all 6 orders, BDD and BCDD: exists/forall/unique for all 256 f x all 8 variable subsets; restrict for all 256 f x all 27 literal cubes (also ZBDD); memoisation histories of length two: every ordered pair of distinct requests among the 26 restrictions and 21 quantifications, first request issued for all 256 f on an emptied cache, then the second one checked for all 256 f; apply_exists/forall/unique for all 8 operators x all 8 subsets x pairs (quick: 64x64 closed subset, thorough: all 65536); substitute for all 256 f x all 13^3 replacement vectors (each variable unlisted or replaced by one of 12 functions), vector-major with a fresh Subst per vector and f-major with persistent Subst objects used alternately with gc in between, each answer repeated and compared. thorough adds n=4 unary quantifier/restrict block. Non-trivial: f non-constant and the variable set / cube / substitution non-empty.",
+        rule: "exhaustive for n=3, all 6 orders, BDD and BCDD: exists/forall/unique for all 256 f x all 8 variable subsets; restrict for all 256 f x all 27 literal cubes (also ZBDD); memoisation histories of length two: every ordered pair of distinct requests among the 26 restrictions and 21 quantifications, first request issued for all 256 f on an emptied cache, then the second one checked for all 256 f; apply_exists/forall/unique for all 8 operators x all 8 subsets x pairs (quick: 64x64 closed subset, thorough: all 65536); substitute for all 256 f x all 13^3 replacement vectors (each variable unlisted or replaced by one of 12 functions), vector-major with a fresh Subst per vector and f-major with persistent Subst objects used alternately with gc in between, each answer repeated and compared. thorough adds n=4 unary quantifier/restrict block. `sparsegc` shards: 7 persistent variable sets and 5 persistent Subst objects; all 256 functions in four visiting orders are built, quantified / substituted, dropped and collected one at a time (only the last 12 results stay alive), so operand nodes die and their slots are recycled while the persistent objects live. Non-trivial: f non-constant and the variable set / cube / substitution non-empty.",
         assumptions: vec![
             "ZBDD implements neither BooleanFunctionQuant nor FunctionSubst; only restrict is checked for it".into(),
             "substitute keys its cache by the substitution id: uniqueness of the ids under concurrent Subst::new() is model-checked with loom on the generator's code (derived from oxidd-core/src/util/substitution.rs at build time): 2 threads x 2 ids unbounded, 3 threads with preemption bound 3".into(),
